@@ -87,6 +87,8 @@ U.insert_in('token_stream.rs', 'trait', 'TokenStream', '''
     spec fn has_error(&self) -> bool;
     /// the char boundaries (byte offsets) of the input
     spec fn bnds(&self) -> spec_fn(nat) -> bool;
+    /// progress measure: strictly decreases with every token other than Eof
+    spec fn rank(&self) -> nat;
     proof fn lemma_len(&self) requires self.wf() ensures self.pos() <= self.src().len() <= u32::MAX;
 ''')
 EAT_ENS = [
@@ -94,7 +96,8 @@ EAT_ENS = [
     C('final(self).src() == old(self).src()', BOTH),
     C('final(self).bnds() == old(self).bnds()', 'C02'),
     C('old(self).pos() <= final(self).pos() <= final(self).src().len()', BOTH, name='cursor moves forward, stays inside the text'),
-    C('ret != TokenKind::Eof ==> final(self).pos() > old(self).pos()', 'C02', name='progress: every token but Eof consumes input'),
+    C('ret != TokenKind::Eof ==> final(self).rank() < old(self).rank()', 'C02', name='progress: every token but Eof decreases the stream rank'),
+    C('final(self).rank() <= old(self).rank()', 'C02'),
     C('ret == TokenKind::Eof ==> final(self).pos() == final(self).src().len() && old(self).pos() == final(self).pos()', BOTH, name='Eof only at the end of input'),
     C('ret == TokenKind::Error ==> final(self).has_error()', 'C02', name='an Error token has its message parked'),
     C('(ret == TokenKind::Ifdef || ret == TokenKind::Ifndef) ==> final(self).pos() >= old(self).pos() + 6', 'C02', name='#ifdef/#ifndef are at least 6 bytes'),
@@ -107,7 +110,7 @@ U.fn('token_stream.rs', 'TokenStream::text',
      ensures=[C('str_bytes(ret) == self.src().subrange(range.start as int, range.end as int)', 'C01', name='text(a..b) is the input slice')])
 U.fn('token_stream.rs', 'TokenStream::take_error', requires=['old(self).wf()'],
      ensures=[C('final(self).wf()', BOTH), C('final(self).src() == old(self).src()', BOTH), C('final(self).pos() == old(self).pos()', BOTH),
-              C('final(self).bnds() == old(self).bnds()', 'C02'),
+              C('final(self).bnds() == old(self).bnds()', 'C02'), C('final(self).rank() == old(self).rank()', 'C02'),
               C('old(self).has_error() ==> ret.is_some() && eco_view(&ret.unwrap()).len() > 0', 'C02', name='parked message is returned and non-empty')])
 
 # ----------------------------------------------------------------------------- lexer.rs
@@ -130,6 +133,7 @@ U.insert_in('lexer.rs', 'impl', '<Lexer as TokenStream>', '''
     closed spec fn pos(&self) -> nat { boff(self.chars(), self.ci()) }
     closed spec fn has_error(&self) -> bool { self.err() }
     closed spec fn bnds(&self) -> spec_fn(nat) -> bool { |p: nat| is_boundary(self.chars(), p) }
+    closed spec fn rank(&self) -> nat { (self.chars().len() - self.ci()) as nat }
     proof fn lemma_len(&self) { lemma_boff_mono(self.chars()); lemma_enc_len(self.chars()); }
 ''')
 MONO = 'proof { lemma_boff_mono(self.chars()); lemma_enc_len(self.chars()); }'
@@ -198,11 +202,15 @@ U.fn('lexer.rs', 'interpret_number', tags='C14',
 # ----------------------------------------------------------------------------- preprocessor.rs
 U.prepend('preprocessor.rs', 'broadcast use {ax_msg_str};')
 U.insert_in('preprocessor.rs', 'impl', '<PreProcessor as TokenStream>', '''
-    closed spec fn wf(&self) -> bool { self.token_stream.wf() && (self.error.is_some() ==> eco_view(&self.error.unwrap()).len() > 0) }
+    closed spec fn wf(&self) -> bool {
+        self.token_stream.wf() && (self.error.is_some() ==> eco_view(&self.error.unwrap()).len() > 0)
+        && 6 * self.open_conditionals <= self.token_stream.pos()
+    }
     closed spec fn src(&self) -> Seq<u8> { self.token_stream.src() }
     closed spec fn pos(&self) -> nat { self.token_stream.pos() }
     closed spec fn has_error(&self) -> bool { self.error.is_some() || self.token_stream.has_error() }
     closed spec fn bnds(&self) -> spec_fn(nat) -> bool { self.token_stream.bnds() }
+    closed spec fn rank(&self) -> nat { 2 * self.token_stream.rank() + if self.open_conditionals > 0 { 1nat } else { 0nat } }
     proof fn lemma_len(&self) { self.token_stream.lemma_len(); }
 ''')
 U.append('preprocessor.rs', '''
@@ -210,6 +218,14 @@ impl<T: TokenStream> PreProcessor<T> {
     pub closed spec fn inner(&self) -> T { self.token_stream }
     pub closed spec fn perr(&self) -> bool { self.error.is_some() }
     pub closed spec fn perror(&self) -> Option<EcoString> { self.error }
+    pub closed spec fn open(&self) -> nat { self.open_conditionals as nat }
+    pub closed spec fn irank(&self) -> nat { self.token_stream.rank() }
+    /// wf without the bound that ties open_conditionals to the cursor (re-established by the callers)
+    pub closed spec fn wf0(&self) -> bool { self.token_stream.wf() && (self.error.is_some() ==> eco_view(&self.error.unwrap()).len() > 0) }
+    /// frame of the helper functions: same input, cursor moved forward, inner rank not increased
+    pub open spec fn hadv(&self, o: &Self) -> bool {
+        self.wf0() && self.src() == o.src() && o.pos() <= self.pos() <= self.src().len() && self.bnds() == o.bnds() && self.irank() <= o.irank()
+    }
     /// frame: same input, cursor moved forward
     pub open spec fn padv(&self, o: &Self) -> bool {
         self.wf() && self.src() == o.src() && o.pos() <= self.pos() <= self.src().len()
@@ -225,29 +241,40 @@ U.fn('preprocessor.rs', 'PreProcessor::new',
      requires=['token_stream.wf()'],
      ensures=['ret.wf()', 'ret.src() == token_stream.src()', C('ret.pos() == token_stream.pos()', 'C01'),
               'ret.bnds() == token_stream.bnds()'])
-U.fn('preprocessor.rs', 'PreProcessor::define_macro', ensures=['final(self).inner() == old(self).inner()', 'final(self).perror() == old(self).perror()'])
+U.fn('preprocessor.rs', 'PreProcessor::define_macro', ensures=['final(self).inner() == old(self).inner()', 'final(self).perror() == old(self).perror()', 'final(self).open() == old(self).open()'])
 U.fn('preprocessor.rs', 'PreProcessor::macros')
 PP_REQ = ['old(self).wf()']
-PP_ENS = [C('final(self).padv(old(self))', BOTH)]
-U.fn('preprocessor.rs', 'PreProcessor::next_token', requires=PP_REQ, ensures=EAT_ENS)
+U.fn('preprocessor.rs', 'PreProcessor::next_token', requires=PP_REQ, ensures=EAT_ENS,
+     prologue='proof { self.token_stream.lemma_len(); }')
 U.fn('preprocessor.rs', 'PreProcessor::error',
      requires=[C('msg_text(message).len() > 0', 'C02', name='preprocessor error messages are non-empty')],
-     ensures=['ret == TokenKind::Error', 'final(self).perr()', 'final(self).inner() == old(self).inner()',
-              'old(self).wf() ==> final(self).wf()'],
+     ensures=['ret == TokenKind::Error', 'final(self).perr()', 'final(self).inner() == old(self).inner()', 'final(self).open() == old(self).open()',
+              'old(self).wf0() ==> final(self).wf0()', 'old(self).wf() ==> final(self).wf()', 'final(self).has_error()'],
      prologue='proof { ax_into_eco(message); }')
-for f in ['process_if', 'process_define']:
-    U.fn('preprocessor.rs', 'PreProcessor::' + f, requires=PP_REQ,
-         ensures=PP_ENS + ['ret == TokenKind::PreProcessor || ret == TokenKind::Error', 'ret == TokenKind::Error ==> final(self).has_error()'])
-U.fn('preprocessor.rs', 'PreProcessor::process_else', requires=PP_REQ, ensures=PP_ENS + ['ret == TokenKind::PreProcessor'])
-U.fn('preprocessor.rs', 'PreProcessor::process_endif', ensures=['*final(self) == *old(self)', 'ret == TokenKind::PreProcessor'])
-U.fn('preprocessor.rs', 'PreProcessor::next_not_trivia', requires=PP_REQ,
-     ensures=PP_ENS + ['ret.0 <= final(self).pos()', '(final(self).bnds())(ret.0 as nat)', 'final(self).perror() == old(self).perror()',
-                       'ret.1 != TokenKind::Eof ==> final(self).pos() > ret.0', 'ret.0 >= old(self).pos()'],
-     loops={0: dict(invariant=['self.padv(old(self))', 'self.error == old(self).error'], decreases='self.src().len() - self.pos()')},
+HELPER_ENS = [C('final(self).hadv(old(self))', BOTH)]
+U.fn('preprocessor.rs', 'PreProcessor::process_if',
+     requires=['old(self).wf0()', C('6 * (old(self).open() + 1) <= old(self).pos()', 'C02', name='an #ifdef token (>= 6 bytes) was just consumed')],
+     ensures=HELPER_ENS + ['final(self).wf()', 'ret == TokenKind::PreProcessor || ret == TokenKind::Error', 'ret == TokenKind::Error ==> final(self).has_error()'],
      prologue='proof { self.token_stream.lemma_len(); }')
-U.fn('preprocessor.rs', 'PreProcessor::eat_until_else_or_endif', requires=PP_REQ, ensures=PP_ENS,
-     loops={0: dict(invariant=['self.padv(old(self))', 'depth as int >= 1', '6 * (depth as int - 1) <= self.pos() - old(self).pos()', 'self.src().len() <= u32::MAX'],
-                    decreases='self.src().len() - self.pos()')},
+U.fn('preprocessor.rs', 'PreProcessor::process_define', requires=PP_REQ,
+     ensures=HELPER_ENS + ['final(self).wf()', 'final(self).open() == old(self).open()', 'ret == TokenKind::PreProcessor || ret == TokenKind::Error', 'ret == TokenKind::Error ==> final(self).has_error()'])
+U.fn('preprocessor.rs', 'PreProcessor::process_else', requires=PP_REQ,
+     ensures=HELPER_ENS + ['final(self).wf()', 'final(self).open() <= old(self).open()', 'ret == TokenKind::PreProcessor || ret == TokenKind::Error', 'ret == TokenKind::Error ==> final(self).has_error()'])
+U.fn('preprocessor.rs', 'PreProcessor::process_eof', requires=PP_REQ,
+     ensures=['final(self).wf()', 'final(self).inner() == old(self).inner()', 'ret == TokenKind::Eof || ret == TokenKind::Error',
+              'ret == TokenKind::Error ==> final(self).has_error() && old(self).open() > 0 && final(self).open() == 0',
+              'ret == TokenKind::Eof ==> *final(self) == *old(self)'])
+U.fn('preprocessor.rs', 'PreProcessor::process_endif', requires=PP_REQ,
+     ensures=['final(self).wf()', 'final(self).inner() == old(self).inner()', 'final(self).perror() == old(self).perror()', 'final(self).open() <= old(self).open()', 'ret == TokenKind::PreProcessor'])
+U.fn('preprocessor.rs', 'PreProcessor::next_not_trivia', requires=['old(self).wf0()'],
+     ensures=HELPER_ENS + ['ret.0 <= final(self).pos()', '(final(self).bnds())(ret.0 as nat)', 'final(self).perror() == old(self).perror()', 'final(self).open() == old(self).open()',
+                           'ret.0 >= old(self).pos()'],
+     loops={0: dict(invariant=['self.hadv(old(self))', 'self.perror() == old(self).perror()', 'self.open() == old(self).open()'], decreases='self.irank()')},
+     prologue='proof { self.token_stream.lemma_len(); }')
+U.fn('preprocessor.rs', 'PreProcessor::eat_until_else_or_endif', requires=['old(self).wf()'],
+     ensures=HELPER_ENS + ['final(self).wf()', 'final(self).open() <= old(self).open()', 'ret == TokenKind::PreProcessor || ret == TokenKind::Error', 'ret == TokenKind::Error ==> final(self).has_error()'],
+     loops={0: dict(invariant=['self.hadv(old(self))', 'self.wf()', 'self.open() == old(self).open()', 'depth as int >= 1', '6 * (depth as int - 1) <= self.pos() - old(self).pos()', 'self.src().len() <= u32::MAX'],
+                    decreases='self.irank()')},
      prologue='proof { self.token_stream.lemma_len(); }')
 
 # ----------------------------------------------------------------------------- parser.rs
@@ -283,9 +310,9 @@ impl<T: TokenStream> ParserBase<T> {
     pub closed spec fn same_but_errors(&self, o: &Self) -> bool {
         self.token_stream == o.token_stream && self.current == o.current && self.current_range == o.current_range && self.builder == o.builder
     }
-    /// termination measure: bytes left in the stream plus one while the look-ahead is not Eof
+    /// termination measure: rank of the token stream plus one while the look-ahead is not Eof
     pub closed spec fn fuel(&self) -> nat {
-        (self.token_stream.src().len() - self.token_stream.pos()) as nat + if self.current != TokenKind::Eof { 1nat } else { 0nat }
+        self.token_stream.rank() + if self.current != TokenKind::Eof { 1nat } else { 0nat }
     }
     pub closed spec fn errs_ok(&self) -> bool {
         forall|i: int| 0 <= i < self.errors@.len() ==> err_ok(#[trigger] self.errors@[i], &self.token_stream)
